@@ -1633,6 +1633,55 @@ def range_cache_scenarios():
 # C18: "break and continue leave no iteration state behind": loop bodies whose per-pass variables are captured by closures
 # that outlive the pass; the pass is left by break / continue / normal end / return; a LATER loop (whose hidden iterator
 # and loop variable reuse the same stack slots) must be unaffected when the old closures are called and written through
+def translated_range_scenarios(K):
+    """ranges, their iteration, identity and slicing are translation invariant: the same program with every range bound moved up by K
+    prints the same (differences to K are printed, never K itself).  The reference machine runs the K = 1000 version; the
+    implementation runs versions whose K is beyond what the machine's exact number domain holds (2^31, 2^32, 2^32 + 2^31, 2^52):
+    whatever the VM does with range bounds (caching, comparing, stepping) must not depend on their size."""
+    out = []
+    R = lambda lo, hi: {"k": "range", "l": lo, "r": hi}
+    for variant in range(8):
+        b = Builder()
+        b.var("K", lit(K))
+        kp = lambda d: bin_("+", b.v("K"), lit(d))
+        if variant == 0:
+            b.for_("i", R(lit(0), lit(3))); b.print(b.v("i")); b.end()
+            b.for_("i", R(kp(0), kp(3))); b.print(bin_("-", b.v("i"), b.v("K"))); b.end()
+            b.for_("i", R(lit(0), lit(3))); b.print(b.v("i")); b.end()
+        elif variant == 1:
+            b.var("e", R(lit(5), lit(5)))
+            b.for_("i", b.v("e")); b.print(lit("never")); b.end()
+            b.var("n", lit(0))
+            b.for_("i", R(lit(5), kp(5))); b.print(b.v("i")); b.expr(b.assign("n", bin_("+", b.v("n"), lit(1)))); b.if_(bin_(">=", b.v("n"), lit(3))); b.break_(); b.end(); b.end()
+        elif variant == 2:
+            b.var("small", R(lit(0), lit(3))); b.var("big", R(kp(0), kp(3)))
+            b.print(tup(bin_("==", b.v("small"), b.v("big")), bin_("==", b.v("big"), R(kp(0), kp(3))), bin_("==", b.v("small"), R(lit(0), lit(3)))))
+            b.print(inv(inv(inv(b.v("big"), "iter"), "map", b.lam(["x"], lambda: bin_("-", b.v("x"), b.v("K")))), "collect"))
+            b.print(inv(inv(b.v("small"), "iter"), "collect"))
+        elif variant == 3:
+            b.for_("i", R(kp(3), kp(0))); b.print(bin_("-", b.v("i"), b.v("K"))); b.end()
+            b.for_("i", R(lit(3), lit(0))); b.print(b.v("i")); b.end()
+        elif variant == 4:
+            b.var("m", mapnode()); b.var("a", R(lit(1), lit(4))); b.var("c", R(kp(1), kp(4)))
+            b.expr(inv(b.v("m"), "insert", b.v("a"), lit("small"))); b.expr(inv(b.v("m"), "insert", b.v("c"), lit("big")))
+            b.print(tup(inv(b.v("m"), "len"), inv(b.v("m"), "get", b.v("a")), inv(b.v("m"), "get", b.v("c"))))
+        elif variant == 5:
+            b.for_("k", R(lit(0), lit(10))); b.var("r", R(bin_("+", b.v("K"), b.v("k")), bin_("+", kp(2), b.v("k")))); b.print(inv(inv(inv(b.v("r"), "iter"), "map", b.lam(["x"], lambda: bin_("-", b.v("x"), b.v("K")))), "collect")); b.end()
+            b.for_("k", R(lit(0), lit(10))); b.print(inv(inv(R(b.v("k"), bin_("+", b.v("k"), lit(2))), "iter"), "collect")); b.end()
+        elif variant == 6:
+            b.var("it", inv(R(kp(0), kp(2)), "iter"))
+            b.for_("i", b.v("it")); b.print(bin_("-", b.v("i"), b.v("K"))); b.end()
+            b.print(inv(inv(b.v("it"), "next"), "derives", b.v("StopIter")))
+            b.print(inv(inv(b.v("it"), "next"), "derives", b.v("StopIter")))
+        else:
+            b.var("v", vec(lit(10), lit(11), lit(12), lit(13)))
+            b.try_(); b.print(idx(b.v("v"), R(kp(0), kp(2)))); b.catch("e"); b.print(tup(lit("refused"), call(b.v("type"), b.v("e")))); b.end()
+            b.print(idx(b.v("v"), R(lit(0), lit(2))))
+            b.print(idx(b.v("v"), R(lit(1), kp(0))))
+        out.append(("transl:%d" % variant, b.toks))
+    return out
+
+
 def loop_state_scenarios():
     out = []
     iterables = {"vec": lambda b: vec(lit(10), lit(20), lit(30), lit(40)), "range": lambda b: rng(0, 4), "range-desc": lambda b: rng(4, 0),
